@@ -14,7 +14,9 @@ EXPLANATION = (
     "Element.set must be clean; CDATA text is escaped by the patched serializer (escape_CDATA applied to CDATA nodes, "
     "serializer installed), escape_CDATA neutralises ']]>' and afterwards only replaces invalid characters (nothing "
     "that deletes characters, such as ANSI stripping, runs after the neutralisation). J5: the walker over run items "
-    "produces one test case per scenario incl. outline rows inside rules. J6: --junit forces the three captures on.")
+    "produces one test case per scenario incl. outline rows inside rules. J6: --junit forces the three captures on. J7: the literal table of code point ranges "
+    "the sanitiser's pattern is compiled from covers every code point XML 1.0 forbids (C0 controls except tab/LF/CR, "
+    "surrogates, U+FFFE/U+FFFF) and none of a sample of ordinary characters; the escape function applies that pattern.")
 NOT_DECIDED = "ElementTree's own escaping of attribute and text content; file names and directories; the bytes of the report"
 TECHNIQUE = "static analysis: abstract exploration of the JUnit reporter with XML element tokens (counter/entry conservation, nullness), taint analysis from model texts to XML sinks through the sanitisers, structural rules on the CDATA serializer path"
 
@@ -24,5 +26,6 @@ def run(chk, ix, tier):
     rules_junit.check_culprit_step(chk, ix)
     rules_junit.check_cdata_path(chk, ix)
     rules_junit.check_walker_and_capture(chk, ix)
-    for r, n in (("J1", 10), ("J2", 10), ("J3", 10), ("J4", 10), ("J5", 1), ("J6", 1)):
+    rules_junit.check_illegal_char_table(chk, ix)
+    for r, n in (("J1", 10), ("J2", 10), ("J3", 10), ("J4", 10), ("J5", 1), ("J6", 1), ("J7", 7)):
         chk.require_instances(r, n)
